@@ -15,6 +15,7 @@
 #include "istransparent.hpp"
 #include "memory.hpp"
 #include "type_traits.hpp"
+#include "utility.hpp"
 
 #ifdef AMC_CXX20
 #include <compare>
@@ -534,9 +535,9 @@ class SmallSet {
 #ifdef AMC_CXX20
   auto operator<=>(const SmallSet &o) const {
     struct Comp {
-      auto operator()(const_pointer pLhs, const_pointer pRhs) const { return *pLhs <=> *pRhs; }
-      auto operator()(const_pointer pLhs, const_reference rhs) const { return *pLhs <=> rhs; }
-      auto operator()(const_reference lhs, const_pointer pRhs) const { return lhs <=> *pRhs; }
+      auto operator()(const_pointer pLhs, const_pointer pRhs) const { return SynthThreeWay()(*pLhs, *pRhs); }
+      auto operator()(const_pointer pLhs, const_reference rhs) const { return SynthThreeWay()(*pLhs, rhs); }
+      auto operator()(const_reference lhs, const_pointer pRhs) const { return SynthThreeWay()(lhs, *pRhs); }
     };
 
     if (isSmall()) {
